@@ -55,5 +55,7 @@ func (op ObjectProperties) MarshalJSON() ([]byte, error) {
 		}
 	}
 	b.WriteByte('}')
-	return b.Bytes(), nil
+	// b goes back to the pool on return: hand out a copy, not its memory (another
+	// goroutine may get and overwrite the buffer before the caller has copied it).
+	return append([]byte(nil), b.Bytes()...), nil
 }
